@@ -253,11 +253,17 @@ Record ustats := mkStats {
   us_grounded : Z; us_travellers : Z; us_distance : K; us_flights : Z; us_share : K;
   us_cdd : list K;                 (* ClearedDistanceDeltas *)
   us_cdays : list Z;               (* ClearedDaysDeltas *)
-  us_points : list K; us_consts : list K }.
+  us_points : list K; us_consts : list K;
+  us_pdist : list K }.             (* prefixDistance: yesterday's distance per key prefix (16 shards) *)
 
+Definition NShards : nat := 16.
 Definition stats0 : ustats :=
   {| us_grounded := 0; us_travellers := 0; us_distance := k0 N; us_flights := 0; us_share := k0 N;
-     us_cdd := []; us_cdays := []; us_points := []; us_consts := [] |}.
+     us_cdd := []; us_cdays := []; us_points := []; us_consts := []; us_pdist := repeat (k0 N) NShards |}.
+
+(** l[i] += d *)
+Definition bump (l : list K) (i : nat) (d : K) : list K :=
+  firstn i l ++ match skipn i l with [] => [] | v :: r => kadd N v d :: r end.
 
 (** what the loop body of updateSomeTravellers does to one traveller: new record (None = not written) and
     the contribution to the worker's statistics *)
@@ -283,15 +289,19 @@ Definition update_traveller (t : traveller) (p : params) (share : K) (now : Z) :
   (if changed then Some t3 else None,
    {| c_grounded := grounded; c_dist := cd; c_cdd := cdd; c_cday := cday |}).
 
-Definition add_contrib (s : ustats) (c : contrib) : ustats :=
+Definition add_contrib (s : ustats) (shard : Z) (c : contrib) : ustats :=
   {| us_grounded := if c_grounded c then us_grounded s + 1 else us_grounded s;
      us_travellers := match c_dist c with Some _ => us_travellers s + 1 | None => us_travellers s end;
-     us_distance := match c_dist c with Some (d, _) => kadd N (us_distance s) d | None => us_distance s end;
+     us_distance := us_distance s;
      us_flights := match c_dist c with Some (_, f) => us_flights s + f | None => us_flights s end;
      us_share := us_share s;
      us_cdd := match c_cdd c with Some x => us_cdd s ++ [x] | None => us_cdd s end;
      us_cdays := match c_cday c with Some x => us_cdays s ++ [x] | None => us_cdays s end;
-     us_points := us_points s; us_consts := us_consts s |}.
+     us_points := us_points s; us_consts := us_consts s;
+     us_pdist := match c_dist c with Some (d, _) => bump (us_pdist s) (Z.to_nat shard) d | None => us_pdist s end |}.
+
+(** key shard: the first hex digit of the 40-digit key *)
+Definition shard_of (k : Z) : Z := k / 2 ^ 156.
 
 (** one worker over a list of snapshot records: new records to write and its statistics *)
 Fixpoint update_some (recs : table) (p : params) (share : K) (now : Z) (writes : table) (s : ustats)
@@ -300,21 +310,27 @@ Fixpoint update_some (recs : table) (p : params) (share : K) (now : Z) (writes :
   | [] => (writes, s)
   | (k, t) :: r =>
     let '(w, c) := update_traveller t p share now in
-    update_some r p share now (match w with Some t' => writes ++ [(k, t')] | None => writes end) (add_contrib s c)
+    update_some r p share now (match w with Some t' => writes ++ [(k, t')] | None => writes end) (add_contrib s (shard_of k) c)
   end.
 
 (** merging a worker's statistics into the total (the channel loop of UpdateTripsAndBackfill) *)
 Definition merge_stats (ut elem : ustats) : ustats :=
   {| us_grounded := us_grounded ut + us_grounded elem;
      us_travellers := us_travellers ut + us_travellers elem;
-     us_distance := kadd N (us_distance ut) (us_distance elem);
+     us_distance := us_distance ut;
      us_flights := us_flights ut + us_flights elem;
      us_share := us_share ut;
      us_cdd := us_cdd ut ++ us_cdd elem; us_cdays := us_cdays ut ++ us_cdays elem;
-     us_points := us_points ut; us_consts := us_consts ut |}.
+     us_points := us_points ut; us_consts := us_consts ut;
+     (* each prefix is handled by exactly one worker: take its total (if d != 0 { total[i] = d }) *)
+     us_pdist := map (fun ab => if keqb N (snd ab) (k0 N) then fst ab else snd ab) (combine (us_pdist ut) (us_pdist elem)) |}.
 
-(** key shard: the first hex digit of the 40-digit key *)
-Definition shard_of (k : Z) : Z := k / 2 ^ 156.
+(** the reported distance: the per-prefix totals added in prefix order *)
+Definition finish_stats (ut : ustats) : ustats :=
+  {| us_grounded := us_grounded ut; us_travellers := us_travellers ut;
+     us_distance := fold_left (kadd N) (us_pdist ut) (us_distance ut);
+     us_flights := us_flights ut; us_share := us_share ut; us_cdd := us_cdd ut; us_cdays := us_cdays ut;
+     us_points := us_points ut; us_consts := us_consts ut; us_pdist := us_pdist ut |}.
 
 (** the worker ranges cut by the code's own loop: delta = 16/threads; for i = 0; i < 16; i += delta *)
 Fixpoint worker_ranges (fuel : nat) (i delta : Z) : list (Z * Z) :=
@@ -345,12 +361,13 @@ Definition update_all (e : engine) (now : Z) (fit : list K) : engine * ustats * 
       else (k0 N, a_pred a) in
   let report := if kltb N (k0 N) backfillers && valid_predictor (a_pred a) then pred_report pred1 else ([], []) in
   let ut0 := {| us_grounded := 0; us_travellers := 0; us_distance := k0 N; us_flights := 0; us_share := share;
-                us_cdd := []; us_cdays := []; us_points := fst report; us_consts := snd report |} in
+                us_cdd := []; us_cdays := []; us_points := fst report; us_consts := snd report;
+                us_pdist := repeat (k0 N) NShards |} in
   let snapshot := e_table e in
   let results := map (fun r => update_some (filter (fun kt => in_range r (fst kt)) snapshot) p share now [] stats0)
                      (ranges_of_threads (pThreads p)) in
   let table' := fold_left (fun tb wr => fold_left (fun tb kt => tput tb (fst kt) (snd kt)) (fst wr) tb) results (e_table e) in
-  let ut := fold_left (fun ut wr => merge_stats ut (snd wr)) results ut0 in
+  let ut := finish_stats (fold_left (fun ut wr => merge_stats ut (snd wr)) results ut0) in
   ({| e_admin := {| a_params := p; a_pred := pred1; a_pc := pc1; a_grounded := us_grounded ut |};
       e_table := table' |}, ut, None).
 
